@@ -34,6 +34,7 @@ class Check:
     def __init__(self, pid, args, functions_planned=(), sub=False):
         self.sub = sub
         self.pending = []
+        self.expected_exc_paths = {}
         self.pid = pid
         self.args = args
         self.tier = args.tier
@@ -127,6 +128,7 @@ class Check:
     def export(self):
         return dict(obls=self.obls, samples=self.samples, pending=self.pending, solver_s=self.solver_s,
                     queries=self.queries, paths=self.paths, paths_truncated=self.paths_truncated, twins=self.twins,
+                    expected_exc_paths=self.expected_exc_paths,
                     functions=sorted(self.functions), bounds=self.bounds, notes=self.notes)
 
     def merge(self, st):
@@ -147,6 +149,8 @@ class Check:
         self.paths += st['paths']
         self.paths_truncated += st['paths_truncated']
         self.twins.update(st['twins'])
+        for k, v in st.get('expected_exc_paths', {}).items():
+            self.expected_exc_paths[k] = self.expected_exc_paths.get(k, 0) + v
         self.functions = set(self.functions) | set(st['functions'])
         for k, v in st['bounds'].items():
             if isinstance(v, list):
@@ -181,6 +185,7 @@ class Check:
                 solver_seconds=round(self.solver_s, 3),
                 solver='z3 ' + z3.get_version_string(),
                 reachability_twins=self.twins,
+                paths_ending_in_expected_exception=self.expected_exc_paths,
                 functions_encoded=sorted(self.functions),
                 bounds=self.bounds,
                 stubs=self.stubs,
@@ -275,6 +280,7 @@ def prove_paths(ck, name, fn, goals, replay, max_paths=500, assumptions=(), expe
     for pi, p in enumerate(paths):
         if p.exc is not None:
             if isinstance(p.exc, tuple(expect_exc)):
+                ck.expected_exc_paths[type(p.exc).__name__] = ck.expected_exc_paths.get(type(p.exc).__name__, 0) + 1
                 continue
             raise symx.HarnessError('%s: path %d raised %r' % (name, pi, p.exc)) from p.exc
         out = p.value
